@@ -1,5 +1,5 @@
 """C20 — the auto-reloader never loses a reload request (DESIGN.md §3 C20)."""
-import json, os, subprocess, collections
+import json, os, subprocess, collections, time
 from common import ENV, VERIF, REPO, BUILD, sh
 
 READY = True
@@ -231,7 +231,7 @@ def run_parallel(exe, text, seed, tier):
 
 
 def wfs_smoke(r):
-    """thorough tier only: the real watch-fs feature (notify) with real file changes in a temp dir.
+    """the real watch-fs feature (notify) with real file changes in a temp dir.
     Built as a scratch crate under .build/ (needs `notify`, which harness/Cargo.toml does not have)."""
     d = os.path.join(BUILD, "c20_wfs")
     os.makedirs(os.path.join(d, "src"), exist_ok=True)
@@ -258,8 +258,8 @@ def wfs_smoke(r):
             r.hist["watch_fs_smoke"][f[2]] += 1
             if f[2] == "FAIL":
                 r.oracle_failure("wfs " + f[1], "watch-fs smoke test: " + f[3], "watch-fs:" + f[1])
-            elif f[2] == "ok":
-                r.count("wfs " + f[1], True)
+            elif f[2] in ("ok", "info"):
+                r.count("wfs " + f[1], f[2] == "ok")
     if rc != 0 or not res:
         r.broken.append(f"watch-fs smoke test crashed rc={rc}: {err[-200:]}")
     r.extra["watch_fs_smoke"] = res
@@ -361,8 +361,9 @@ def run(r):
                 r.oracle_failure("probe " + f[1], f"mutex-level probe failed: {f[3]}", "probe:" + f[1])
     if rc != 0 or not out.strip():
         r.broken.append(f"probe run failed rc={rc} {err[-200:]}")
-    if r.tier == "thorough":
-        wfs_smoke(r)
+    t0 = time.time()
+    wfs_smoke(r)
+    r.extra["watch_fs_test_wall_s"] = round(time.time() - t0, 2)
 
 
 def replay(r, path):
